@@ -117,13 +117,17 @@ Definition mcore_eq (c c' : mctx) : Prop :=
   m_cust_amt (c_mtp c') = m_cust_amt (c_mtp c) /\ m_liab (c_mtp c') = m_liab (c_mtp c) /\
   c_asset c' = c_asset c /\ c_addr c' = c_addr c /\ c_id c' = c_id c /\
   ms_mtps (c_s c') = ms_mtps (c_s c) /\ ms_open (c_s c') = ms_open (c_s c) /\ ms_count (c_s c') = ms_count (c_s c) /\
-  ms_params (c_s c') = ms_params (c_s c) /\ ms_height (c_s c') = ms_height (c_s c).
+  ms_params (c_s c') = ms_params (c_s c) /\ ms_height (c_s c') = ms_height (c_s c) /\
+  (forall a', a' <> c_asset c -> get a' (ms_pools (c_s c')) = get a' (ms_pools (c_s c))).
 Definition core_eq (c c' : mctx) : Prop := pool4_eq c c' /\ mcore_eq c c'.
 
 Lemma mcore_eq_refl c : mcore_eq c c.
 Proof. unfold mcore_eq. repeat split; reflexivity. Qed.
 Lemma mcore_eq_trans c1 c2 c3 : mcore_eq c1 c2 -> mcore_eq c2 c3 -> mcore_eq c1 c3.
-Proof. unfold mcore_eq. intuition congruence. Qed.
+Proof.
+  unfold mcore_eq. intros (A1&A2&A3&A4&A5&A6&A7&A8&A9&A10&A11&A12&A13) (B1&B2&B3&B4&B5&B6&B7&B8&B9&B10&B11&B12&B13).
+  repeat split; try congruence. intros a' Ha. rewrite B13 by congruence. apply A13. exact Ha.
+Qed.
 Lemma core_eq_refl c : core_eq c c.
 Proof. unfold core_eq, pool4_eq. split; [repeat split; reflexivity|apply mcore_eq_refl]. Qed.
 Lemma core_eq_trans c1 c2 c3 : core_eq c1 c2 -> core_eq c2 c3 -> core_eq c1 c3.
@@ -149,7 +153,10 @@ Qed.
 
 (* primitives that leave the core alone *)
 Lemma set_pool_core c c' a : set_pool c = (c', Ok a) -> core_eq c c'.
-Proof. intros H. apply set_pool_ok in H. subst. unfold core_eq, pool4_eq, mcore_eq. cbn. repeat split; reflexivity. Qed.
+Proof.
+  intros H. apply set_pool_ok in H. subst. unfold core_eq, pool4_eq, mcore_eq. cbn -[get Store.set]. repeat split; try reflexivity.
+  intros a' Ha. apply get_set_other. exact Ha.
+Qed.
 Lemma bank_send_core from to d x c c' a : bank_send from to d x c = (c', Ok a) -> core_eq c c'.
 Proof. intros H. apply bank_send_ok in H. destruct H as (b & _ & ->). unfold core_eq, pool4_eq, mcore_eq. cbn. repeat split; reflexivity. Qed.
 
@@ -320,13 +327,18 @@ Definition kcore_eq (c c' : mctx) : Prop :=
   m_coll_asset (c_mtp c') = m_coll_asset (c_mtp c) /\ m_cust_asset (c_mtp c') = m_cust_asset (c_mtp c) /\
   m_liab (c_mtp c') = m_liab (c_mtp c) /\
   c_asset c' = c_asset c /\ c_addr c' = c_addr c /\ c_id c' = c_id c /\
-  ms_params (c_s c') = ms_params (c_s c) /\ ms_height (c_s c') = ms_height (c_s c).
+  ms_params (c_s c') = ms_params (c_s c) /\ ms_height (c_s c') = ms_height (c_s c) /\
+  ms_open (c_s c') = ms_open (c_s c) /\ ms_count (c_s c') = ms_count (c_s c) /\
+  (forall a', a' <> c_asset c -> get a' (ms_pools (c_s c')) = get a' (ms_pools (c_s c))).
 Lemma kcore_refl c : kcore_eq c c.
 Proof. unfold kcore_eq. repeat split; reflexivity. Qed.
 Lemma kcore_trans c1 c2 c3 : kcore_eq c1 c2 -> kcore_eq c2 c3 -> kcore_eq c1 c3.
-Proof. unfold kcore_eq. intuition congruence. Qed.
+Proof.
+  unfold kcore_eq. intros (A1&A2&A3&A4&A5&A6&A7&A8&A9&A10&A11) (B1&B2&B3&B4&B5&B6&B7&B8&B9&B10&B11).
+  repeat split; try congruence. intros a' Ha. rewrite B11 by congruence. apply A11. exact Ha.
+Qed.
 Lemma mcore_kcore c c' : mcore_eq c c' -> kcore_eq c c'.
-Proof. unfold mcore_eq, kcore_eq. intuition. Qed.
+Proof. unfold mcore_eq, kcore_eq. intros (A1&A2&A3&A4&A5&A6&A7&A8&A9&A10&A11&A12&A13). repeat split; assumption. Qed.
 
 Lemma clp_swap_pos s asset sent to p r : clp_swap s asset sent to p = Ok r -> 0 < r.
 Proof.
@@ -355,7 +367,7 @@ Lemma incremental_any i c c' o li :
   0 <= m_cust_amt (c_mtp c) <= bal (ms_bank (c_s c)) CLP_MODULE (m_cust_asset (c_mtp c)) ->
   match o with
   | Panic => True
-  | _ => Link true li c' /\ kcore_eq c c' /\ 0 <= m_cust_amt (c_mtp c') <= m_cust_amt (c_mtp c)
+  | _ => Link true li c' /\ kcore_eq c c' /\ 0 <= m_cust_amt (c_mtp c') <= m_cust_amt (c_mtp c) /\ (forall g, others g c' = others g c)
   end.
 Proof.
   unfold incremental_interest_payment. intros H Hon Hid L Hpct Hfunds.
@@ -368,7 +380,7 @@ Proof.
   (* custody value of the payment *)
   pma H as c2 o2 E2. apply lift_any in E2. destruct E2 as (-> & ->).
   destruct (clp_swap (c_s c) (c_asset c) interest (m_cust_asset (c_mtp c)) (c_pool c)) as [ipc|e|] eqn:Es.
-  2:{ destruct H as (-> & ->). split; [exact L|]. split; [apply kcore_refl|lia]. }
+  2:{ destruct H as (-> & ->). split; [exact L|]. split; [apply kcore_refl|]. split; [lia|reflexivity]. }
   2:{ destruct H as (_ & ->). exact I. }
   apply clp_swap_pos in Es.
   (* unpaid interest reset *)
@@ -398,7 +410,7 @@ Proof.
       split; [exact HcA|]. split; [lia|reflexivity]. }
   destruct o4 as [[interest' ipc']|e|].
   2:{ destruct H as (-> & ->). split; [eapply Link_core; eassumption|]. split; [apply mcore_kcore, Hc4|].
-      destruct Hc4 as (_ & (_ & _ & Hcu & _)). rewrite Hcu. lia. }
+      split; [destruct Hc4 as (_ & (_ & _ & Hcu & _)); rewrite Hcu; lia|]. intros g. apply others_core, Hc4. }
   2:{ destruct H as (_ & ->). exact I. }
   destruct Hc4 as (Hc4 & Hipc & Hbank). cbn [snd] in Hipc.
   (* the position pays *)
@@ -413,7 +425,7 @@ Proof.
   2:{ exfalso. unfold uint_sub, ck_uint in Ec. destruct (fits_uint _); discriminate. }
   2:{ destruct E5 as (_ & ->). destruct H as (_ & ->). exact I. }
   destruct E5 as (-> & ->). apply uint_sub_ok in Ec. destruct Ec as (-> & Hcu0).
-  pose proof Hc4 as ((P1 & P2 & P3 & P4) & (M1 & M2 & M3 & M4 & K1 & K2 & K3 & S1 & S2 & S3 & S4 & S5)).
+  pose proof Hc4 as ((P1 & P2 & P3 & P4) & (M1 & M2 & M3 & M4 & K1 & K2 & K3 & S1 & S2 & S3 & S4 & S5 & S6)).
   (* fund payment *)
   pma H as c6 o6 E6.
   eapply take_fund_payment_any in E6; cbn -[bal]; try rewrite ?Hbank, ?S4, ?M2; try lia.
@@ -425,15 +437,15 @@ Proof.
   2:{ destruct H as (_ & ->). exact I. }
   (* the pool books it *)
   pma H as c8 o8 E8. apply upd_pool_any in E8.
-  pose proof Hc6 as ((Q1 & Q2 & Q3 & Q4) & (N1 & N2 & N3 & N4 & J1 & J2 & J3 & T1 & T2 & T3 & T4 & T5)).
-  cbn -[bal] in Q1, Q2, Q3, Q4, N1, N2, N3, N4, J1, J2, J3, T1, T2, T3, T4, T5.
+  pose proof Hc6 as ((Q1 & Q2 & Q3 & Q4) & (N1 & N2 & N3 & N4 & J1 & J2 & J3 & T1 & T2 & T3 & T4 & T5 & T6)).
+  cbn -[bal get] in Q1, Q2, Q3, Q4, N1, N2, N3, N4, J1, J2, J3, T1, T2, T3, T4, T5, T6.
   apply uint_sub_ok in Eact. destruct Eact as (-> & Hact0).
   (* the remaining steps: SetMTP, SetPool *)
   assert (Hfin : forall p', c8 = c6 <| c_pool := p' |> -> o8 = Ok tt ->
             q_nl p' = q_nl (c_pool c) -> q_el p' = q_el (c_pool c) ->
             q_nc p' = q_nc (c_pool c) - (if m_cust_asset (c_mtp c) =? ROWAN then ipc' else 0) ->
             q_ec p' = q_ec (c_pool c) - (if m_cust_asset (c_mtp c) =? ROWAN then 0 else ipc') ->
-            match o with Panic => True | _ => Link true li c' /\ kcore_eq c c' /\ 0 <= m_cust_amt (c_mtp c') <= m_cust_amt (c_mtp c) end).
+            match o with Panic => True | _ => Link true li c' /\ kcore_eq c c' /\ 0 <= m_cust_amt (c_mtp c') <= m_cust_amt (c_mtp c) /\ (forall g, others g c' = others g c) end).
   { intros p' -> -> Hnl Hel Hnc Hec.
     pma H as c9 o9 E9. assert (o9 = Ok tt) by (unfold set_mtp, modc in E9; congruence). subst o9.
     apply set_mtp_existing in E9; [|cbn; congruence]. subst c9.
@@ -455,8 +467,12 @@ Proof.
     split; [apply (Link_core _ _ _ _ Hc10); apply Link_put; exact LB|].
     split.
     - eapply kcore_trans; [|apply mcore_kcore; apply Hc10].
-      unfold kcore_eq, cB. cbn. rewrite N1, N2, N4, J1, J2, J3, T4, T5. cbn. rewrite M1, M2, M4, K1, K2, K3, S4, S5. repeat split; reflexivity.
-    - destruct Hc10 as (_ & (_ & _ & Hcu & _)). rewrite Hcu. unfold cB. cbn. rewrite N3. cbn. rewrite M3. lia. }
+      unfold kcore_eq, cB. cbn -[get]. repeat split; try congruence.
+      intros a' Ha. rewrite T6 by congruence. apply S6. exact Ha.
+    - split; [destruct Hc10 as (_ & (_ & _ & Hcu & _)); rewrite Hcu; unfold cB; cbn; rewrite N3; cbn; rewrite M3; lia|].
+      intros g. rewrite (others_core g _ _ (proj2 Hc10)), others_put.
+      unfold others, cB. cbn -[tot find_mtp]. rewrite (tot_core g _ _ T1), (find_core _ _ _ _ T1), J2, J3.
+      cbn -[tot find_mtp]. rewrite (tot_core g _ _ S1), (find_core _ _ _ _ S1), K2, K3. reflexivity. }
   cbn beta in E8. destruct (m_cust_asset (c_mtp c) =? ROWAN) eqn:Er.
   - destruct (uint_sub (q_nc (c_pool c6)) ipc') as [x| |] eqn:Ex; cbn [bind] in E8.
     2:{ exfalso. unfold uint_sub, ck_uint in Ex. destruct (fits_uint _); discriminate. }
@@ -472,4 +488,718 @@ Proof.
     2:{ exfalso. unfold uint_add, ck_uint in Ey. destruct (fits_uint _); discriminate. }
     2:{ destruct E8 as (_ & ->). destruct H as (_ & ->). exact I. }
     destruct E8 as (E8 & ->). uints. subst. eapply Hfin; [reflexivity|reflexivity|cbn; lia..].
+Qed.
+
+(* ---------- what the interest steps keep ---------- *)
+Definition Keeps (li : bool) (c c' : mctx) : Prop :=
+  Link true li c' /\ kcore_eq c c' /\ m_cust_amt (c_mtp c') <= m_cust_amt (c_mtp c) /\ (forall g, others g c' = others g c).
+
+Lemma Keeps_core_l li c c1 c2 : core_eq c c1 -> Keeps li c1 c2 -> Keeps li c c2.
+Proof.
+  intros Hc (L & K & B & O). split; [exact L|]. split; [eapply kcore_trans; [apply mcore_kcore, Hc|exact K]|].
+  split; [destruct Hc as (_ & (_ & _ & Hcu & _)); rewrite <- Hcu; exact B|].
+  intros g. rewrite O. apply others_core, Hc.
+Qed.
+Lemma Keeps_core_r li c c1 c2 : Keeps li c c1 -> core_eq c1 c2 -> Keeps li c c2.
+Proof.
+  intros (L & K & B & O) Hc. split; [eapply Link_core; eassumption|]. split; [eapply kcore_trans; [exact K|apply mcore_kcore, Hc]|].
+  split; [destruct Hc as (_ & (_ & _ & Hcu & _)); rewrite Hcu; exact B|].
+  intros g. rewrite (others_core g _ _ (proj2 Hc)). apply O.
+Qed.
+Lemma Keeps_refl li c : Link true li c -> Keeps li c c.
+Proof. intros L. split; [exact L|]. split; [apply kcore_refl|]. split; [lia|reflexivity]. Qed.
+
+Definition interest_hyps (c : mctx) : Prop :=
+  on_pool (c_asset c) (c_mtp c) /\ c_id c <> 0 /\
+  0 <= mp_incr_pct (ms_params (c_s c)) <= PREC /\
+  0 <= m_cust_amt (c_mtp c) <= bal (ms_bank (c_s c)) CLP_MODULE (m_cust_asset (c_mtp c)).
+
+Lemma interest_hyps_core c c' : core_eq c c' -> ms_bank (c_s c') = ms_bank (c_s c) -> interest_hyps c -> interest_hyps c'.
+Proof.
+  intros (_ & (M1 & M2 & M3 & M4 & K1 & K2 & K3 & S1 & S2 & S3 & S4 & S5 & S6)) Hb (Hon & Hid & Hp & Hf).
+  unfold interest_hyps, on_pool in *. rewrite M1, M2, M3, K1, K3, S4, Hb. auto.
+Qed.
+
+(* HandleInterestPayment never returns an error; short of a panic the link is kept *)
+Lemma handle_interest_any i c c' o li :
+  handle_interest_payment i c = (c', o) -> interest_hyps c -> Link true li c ->
+  match o with Panic => True | Err _ => False | Ok _ => Keeps li c c' end.
+Proof.
+  unfold handle_interest_payment. intros H (Hon & Hid & Hp & Hf) L. pmg H.
+  destruct (mp_incr (ms_params (c_s c))).
+  - destruct (incremental_interest_payment i c) as [c1 o1] eqn:E.
+    pose proof (incremental_any _ _ _ _ li E Hon Hid L Hp Hf) as HI.
+    destruct o1; injection H as <- <-; [destruct HI as (A&B&C&D); split; [exact A|split; [exact B|split; [lia|exact D]]]|destruct HI as (A&B&C&D); split; [exact A|split; [exact B|split; [lia|exact D]]]|exact I].
+  - pma H as c1 o1 E1. apply upd_mtp_any in E1. cbn beta in E1. destruct E1 as (-> & ->).
+    unfold ret in H. injection H as <- <-.
+    apply Keeps_core_r with (c1 := c); [apply Keeps_refl; exact L|].
+    unfold core_eq, pool4_eq, mcore_eq. cbn. repeat split; reflexivity.
+Qed.
+
+Lemma add_block_interest_ok fin c c' u : add_block_interest fin c = (c', Ok u) -> core_eq c c' /\ ms_bank (c_s c') = ms_bank (c_s c).
+Proof.
+  unfold add_block_interest. intros H. pmg H. apply upd_pool_ok in H. destruct H as (p & Hp & ->).
+  destruct (m_coll_asset (c_mtp c) =? ROWAN); repeat inv1 Hp; subst;
+  (split; [unfold core_eq, pool4_eq, mcore_eq; cbn; repeat split; reflexivity|reflexivity]).
+Qed.
+
+Lemma set_mtp_keeps li c c' u : set_mtp c = (c', Ok u) -> c_id c <> 0 ->
+  Link true li c -> Link true li c' /\ kcore_eq c c' /\ m_cust_amt (c_mtp c') = m_cust_amt (c_mtp c) /\ (forall g, others g c' = others g c) /\
+  ms_bank (c_s c') = ms_bank (c_s c).
+Proof.
+  intros H Hid L. apply set_mtp_existing in H; [|exact Hid]. subst.
+  split; [apply Link_put; exact L|]. split; [unfold kcore_eq; cbn; repeat split; reflexivity|].
+  split; [reflexivity|]. split; [intros g; apply others_put|reflexivity].
+Qed.
+
+(* the interest part of the begin blocker's per-position processing *)
+Lemma process_interest_ok c c' u :
+  process_interest c = (c', Ok u) -> interest_hyps c -> Link true true c -> Keeps true c c'.
+Proof.
+  unfold process_interest. intros H Hh L. pmg H.
+  pm H as c1 h E1. apply lift_ok in E1. destruct E1 as (-> & Eh).
+  pm H as c2 u2 E2. apply upd_mtp_ok in E2. destruct E2 as (m2 & Em2 & ->). injection Em2 as <-.
+  set (cA := c <| c_mtp := (c_mtp c) <| m_health := h |> |>) in *.
+  assert (HcA : core_eq c cA) by (unfold cA, core_eq, pool4_eq, mcore_eq; cbn; repeat split; reflexivity).
+  pmg H. pm H as c3 i E3. apply lift_ok in E3. destruct E3 as (-> & Ei).
+  pm H as c4 fin E4.
+  pose proof (handle_interest_any _ _ _ _ true E4 (interest_hyps_core _ _ HcA eq_refl Hh) (Link_core _ _ _ _ HcA L)) as HK. cbn beta iota in HK.
+  pm H as c5 u5 E5. apply add_block_interest_ok in E5. destruct E5 as (Hc5 & Hb5).
+  pose proof (Keeps_core_r _ _ _ _ HK Hc5) as HK5.
+  destruct HK5 as (L5 & K5 & B5 & O5).
+  assert (Hid5 : c_id c5 <> 0).
+  { destruct K5 as (_&_&_&_&_&Hid&_). rewrite Hid. cbn. apply Hh. }
+  destruct (set_mtp_keeps true _ _ _ H Hid5 L5) as (L6 & K6 & C6 & O6 & _).
+  apply Keeps_core_l with (c1 := cA); [exact HcA|].
+  split; [exact L6|]. split; [eapply kcore_trans; eassumption|]. split; [rewrite C6; exact B5|].
+  intros g. rewrite O6. apply O5.
+Qed.
+
+Lemma mid_epoch_ok c c' u li :
+  mid_epoch_interest c = (c', Ok u) -> (epoch_position (c_s c) <> 0 -> interest_hyps c) -> Link true li c -> Keeps li c c'.
+Proof.
+  unfold mid_epoch_interest. intros H Hh0 L. pmg H.
+  destruct (Z.ltb_spec 0 (epoch_position (c_s c))) as [Hpos|Hpos].
+  - assert (Hh : interest_hyps c) by (apply Hh0; lia). pm H as c1 i E1. apply lift_ok in E1. destruct E1 as (-> & Ei).
+    pm H as c2 fin E2. pose proof (handle_interest_any _ _ _ _ li E2 Hh L) as HK. cbn beta iota in HK.
+    pm H as c3 u3 E3. apply add_block_interest_ok in E3. destruct E3 as (Hc3 & _).
+    pmg H. pm H as c4 h E4. apply lift_ok in E4. destruct E4 as (-> & Eh).
+    apply upd_mtp_ok in H. destruct H as (m & Em & ->). injection Em as <-.
+    eapply Keeps_core_r; [eapply Keeps_core_r; [exact HK|exact Hc3]|].
+    unfold core_eq, pool4_eq, mcore_eq; cbn; repeat split; reflexivity.
+  - apply ret_ok in H. destruct H as (-> & _). apply Keeps_refl; exact L.
+Qed.
+
+Lemma destroy_mtp_ok c c' u : destroy_mtp c = (c', Ok u) ->
+  find_mtp (c_s c) (c_addr c) (c_id c) <> None /\
+  c' = c <| c_s := (c_s c) <| ms_mtps := set (c_addr c) (del (c_id c) (mtps_of (c_s c) (c_addr c))) (ms_mtps (c_s c)) |>
+                           <| ms_open := if ms_open (c_s c) =? 0 then 18446744073709551615 else ms_open (c_s c) - 1 |> |>.
+Proof.
+  unfold destroy_mtp. intros H. pmg H. destruct (find_mtp (c_s c) (c_addr c) (c_id c)) eqn:E.
+  - apply modc_ok in H. split; [discriminate|exact H].
+  - exfalso. eapply failM_not_ok; eassumption.
+Qed.
+
+(* what a completed close leaves behind, relative to the context it started from *)
+Definition Closed (c : mctx) (s' : mstate) : Prop :=
+  let a := c_asset c in
+  (forall g, tot g s' = others g c) /\
+  (exists P', get a (ms_pools s') = Some P' /\ q_nc P' = others (g_nc a) c /\ q_ec P' = others (g_ec a) c /\
+              q_nl P' = others (g_nl a) c /\ q_el P' = others (g_el a) c) /\
+  (forall a', a' <> a -> get a' (ms_pools s') = get a' (ms_pools (c_s c))) /\
+  ms_open s' = (if ms_open (c_s c) =? 0 then 18446744073709551615 else ms_open (c_s c) - 1) /\
+  ms_count s' = ms_count (c_s c).
+
+Lemma repay_ok r tf c c' u :
+  repay r tf c = (c', Ok u) -> on_pool (c_asset c) (c_mtp c) -> Link false true c ->
+  Closed c (c_s c') /\ find_mtp (c_s c) (c_addr c) (c_id c) <> None /\
+  get (c_asset c) (ms_pools (c_s c')) = Some (c_pool c').
+Proof.
+  unfold repay. intros H Hon L. pmg H.
+  pm H as c1 h E1. apply lift_ok in E1. destruct E1 as (-> & _).
+  pm H as c2 u2 E2. apply upd_mtp_ok in E2. destruct E2 as (m2 & Em2 & ->). injection Em2 as <-.
+  set (cA := c <| c_mtp := (c_mtp c) <| m_health := h |> |>) in *.
+  assert (HcA : core_eq c cA) by (unfold cA, core_eq, pool4_eq, mcore_eq; cbn; repeat split; reflexivity).
+  pm H as c3 owe E3. apply lift_ok in E3. destruct E3 as (-> & _).
+  pm H as c4 tr E4. apply lift_ok in E4. destruct E4 as (-> & Etr). destruct tr as [[ret_amt debtP] debtI].
+  pm H as c5 u5 E5.
+  assert (Hc5 : core_eq cA c5).
+  { destruct (ret_amt =? 0).
+    - apply ret_ok in E5. destruct E5 as (-> & _). apply core_eq_refl.
+    - pm E5 as c6 actual E6.
+      assert (Hc6 : core_eq cA c6).
+      { destruct tf.
+        - pm E6 as c7 take E7. apply take_fund_payment_core in E7. apply lift_ok in E6. destruct E6 as (-> & _). exact E7.
+        - apply ret_ok in E6. destruct E6 as (-> & _). apply core_eq_refl. }
+      destruct (actual =? 0).
+      + apply ret_ok in E5. destruct E5 as (-> & _). exact Hc6.
+      + eapply core_eq_trans; [exact Hc6|]. eapply bank_send_core; eassumption. }
+  pose proof (core_eq_trans _ _ _ HcA Hc5) as Hc.
+  pm H as c6 u6 E6. apply upd_pool_ok in E6. destruct E6 as (p & Hp & ->).
+  pm H as c7 u7 E7. apply destroy_mtp_ok in E7. destruct E7 as (Hex & ->).
+  apply set_pool_ok in H. subst c'.
+  (* the link at c5, with the pool updated *)
+  pose proof (Link_core _ _ _ _ Hc L) as (L1 & L2 & L3 & L4).
+  pose proof Hc as ((P1 & P2 & P3 & P4) & Hm).
+  pose proof Hm as (M1 & M2 & M3 & M4 & K1 & K2 & K3 & S1 & S2 & S3 & S4 & S5 & S6).
+  assert (Hon5 : on_pool (c_asset c5) (c_mtp c5)) by (unfold on_pool in *; rewrite M1, M2, K1; exact Hon).
+  assert (Ho : forall g, others g c5 = others g c) by (intros g; apply others_core; exact Hm).
+  assert (Hp' : q_nc p = others (g_nc (c_asset c)) c /\ q_ec p = others (g_ec (c_asset c)) c /\
+                q_nl p = others (g_nl (c_asset c)) c /\ q_el p = others (g_el (c_asset c)) c).
+  { rewrite <- !Ho, <- K1. cbn [c_mtp] in Hp.
+    destruct (gs_on_pool _ _ Hon5) as [(Hcu & G1 & G2 & G3 & G4)|(Hcu & G1 & G2 & G3 & G4)].
+    - (* custody native: collateral external *)
+      assert (Ecoll : (m_coll_asset (c_mtp c) =? ROWAN) = false).
+      { destruct Hon as (Ha & [(Hc1 & Hc2)|(Hc1 & Hc2)]); [rewrite M2 in Hcu; congruence|]. rewrite Hc2. apply Z.eqb_neq. exact Ha. }
+      rewrite Ecoll in Hp. repeat inv1 Hp. uints. subst. cbn. rewrite M4 in *. repeat split; lia.
+    - assert (Ecoll : (m_coll_asset (c_mtp c) =? ROWAN) = true).
+      { destruct Hon as (Ha & [(Hc1 & Hc2)|(Hc1 & Hc2)]); [rewrite Hc1; reflexivity|]. rewrite M2 in Hcu. congruence. }
+      rewrite Ecoll in Hp. repeat inv1 Hp. uints. subst. cbn. rewrite M4 in *. repeat split; lia. }
+  split.
+  - unfold Closed. cbn -[tot get Store.set others g_nc g_ec g_nl g_el del].
+    split.
+    { intros g. rewrite <- Ho. unfold others.
+      rewrite <- (tot_del g (c_s c5) (c_addr c5) (c_id c5)). unfold tot. cbn. reflexivity. }
+    split.
+    { exists p. rewrite K1. split; [apply get_set_same|exact Hp']. }
+    split.
+    { intros a' Ha'. rewrite K1. rewrite get_set_other by exact Ha'. cbn -[get]. apply S6. exact Ha'. }
+    split; [rewrite S2; reflexivity|exact S3].
+  - split; [rewrite <- (find_core _ _ _ _ S1), <- K2, <- K3; exact Hex|].
+    cbn -[get Store.set]. rewrite K1. apply get_set_same.
+Qed.
+
+(* TakeOutCustody, price the custody, Repay *)
+Lemma closing_tail_ok {A} tf (k : Z -> A) c c' x :
+  (take_out_custody ;;; c1 <-- getc ;;
+   r <-- lift (clp_swap (c_s c1) (c_asset c1) (m_cust_amt (c_mtp c1)) (m_coll_asset (c_mtp c1)) (c_pool c1)) ;;
+   repay r tf ;;; ret (k r))%pm c = (c', Ok x) ->
+  on_pool (c_asset c) (c_mtp c) -> Link true true c ->
+  Closed c (c_s c') /\ find_mtp (c_s c) (c_addr c) (c_id c) <> None /\
+  get (c_asset c) (ms_pools (c_s c')) = Some (c_pool c').
+Proof.
+  intros H Hon L. pm H as c1 u1 E1. destruct (take_out_custody_link _ _ _ _ E1 Hon L) as (L1 & Hm1).
+  pmg H. pm H as c2 r E2. apply lift_ok in E2. destruct E2 as (-> & _).
+  pm H as c3 u3 E3. apply ret_ok in H. destruct H as (-> & _).
+  pose proof Hm1 as (M1 & M2 & M3 & M4 & K1 & K2 & K3 & S1 & S2 & S3 & S4 & S5 & S6).
+  assert (Hon1 : on_pool (c_asset c1) (c_mtp c1)) by (unfold on_pool in *; rewrite M1, M2, K1; exact Hon).
+  destruct (repay_ok _ _ _ _ _ E3 Hon1 L1) as (HC & Hex & Hmem).
+  split.
+  - unfold Closed in *. rewrite K1 in HC. destruct HC as (C1 & C2 & C3 & C4 & C5).
+    split; [intros g; rewrite C1; apply others_core; exact Hm1|].
+    split; [destruct C2 as (P' & G & Q1 & Q2 & Q3 & Q4); exists P'; rewrite <- !(others_core _ _ _ Hm1); auto|].
+    split; [intros a' Ha'; rewrite C3 by exact Ha'; apply S6; exact Ha'|].
+    split; [rewrite C4, S2; reflexivity|rewrite C5; exact S3].
+  - split; [rewrite <- (find_core _ _ _ _ S1), <- K2, <- K3; exact Hex|]. rewrite <- K1. exact Hmem.
+Qed.
+
+Lemma Closed_keeps li c c1 s' : Keeps li c c1 -> Closed c1 s' -> Closed c s'.
+Proof.
+  intros (_ & K & _ & O) (C1 & C2 & C3 & C4 & C5).
+  destruct K as (_&_&_&Ka&_&_&_&_&Ko&Kc&Kp).
+  unfold Closed in *. rewrite Ka in *.
+  split; [intros g; rewrite C1; apply O|].
+  split; [destruct C2 as (P' & G & Q1 & Q2 & Q3 & Q4); exists P'; rewrite <- !O; auto|].
+  split; [intros a' Ha'; rewrite C3 by exact Ha'; apply Kp; exact Ha'|].
+  split; [rewrite C4, Ko; reflexivity|rewrite C5; exact Kc].
+Qed.
+
+Lemma keeps_on_pool li c c1 : Keeps li c c1 -> on_pool (c_asset c) (c_mtp c) -> on_pool (c_asset c1) (c_mtp c1).
+Proof. intros (_ & (K1&K2&_&Ka&_) & _) H. unfold on_pool in *. rewrite K1, K2, Ka. exact H. Qed.
+
+Lemma keeps_find li c c1 : Keeps li c c1 -> c_addr c1 = c_addr c /\ c_id c1 = c_id c.
+Proof. intros (_ & (_&_&_&_&Kaddr&Kid&_) & _). auto. Qed.
+
+(* CloseLong *)
+Lemma close_long_ok c c' r :
+  close_long c = (c', Ok r) -> on_pool (c_asset c) (c_mtp c) -> (epoch_position (c_s c) <> 0 -> interest_hyps c) ->
+  Link true true c -> Closed c (c_s c').
+Proof.
+  unfold close_long. intros H Hon Hh L. pm H as c1 u1 E1.
+  pose proof (mid_epoch_ok _ _ _ true E1 Hh L) as HK.
+  pose proof HK as (L1 & _).
+  destruct (closing_tail_ok false (fun r => r) c1 c' r H (keeps_on_pool _ _ _ HK Hon) L1) as (HC & _ & _).
+  eapply Closed_keeps; eassumption.
+Qed.
+
+(* ForceCloseLong: also returns the health the decision was taken on *)
+Lemma force_close_long_ok adm tf c c' r :
+  force_close_long adm tf c = (c', Ok r) -> on_pool (c_asset c) (c_mtp c) -> (epoch_position (c_s c) <> 0 -> interest_hyps c) ->
+  Link true true c ->
+  Closed c (c_s c') /\ (adm = false -> snd r <= mp_safety (ms_params (c_s c))) /\
+  (exists c1, Keeps true c c1 /\ snd r = m_health (c_mtp c1)) /\
+  get (c_asset c) (ms_pools (c_s c')) = Some (c_pool c').
+Proof.
+  unfold force_close_long. intros H Hon Hh L. pm H as c1 u1 E1.
+  pose proof (mid_epoch_ok _ _ _ true E1 Hh L) as HK.
+  pose proof HK as (L1 & K1 & _).
+  pmg H.
+  destruct (negb adm && (mp_safety (ms_params (c_s c1)) <? m_health (c_mtp c1))) eqn:Eg.
+  { exfalso. unfold lift in H. inversion H. }
+  destruct (closing_tail_ok tf (fun r => (r, m_health (c_mtp c1))) c1 c' r H (keeps_on_pool _ _ _ HK Hon) L1) as (HC & _ & Hmem).
+  split; [eapply Closed_keeps; eassumption|].
+  assert (Er : snd r = m_health (c_mtp c1)).
+  { clear -H. pm H as c2 u2 E2. pmg H. pm H as c3 r3 E3. pm H as c4 u4 E4. apply ret_ok in H. destruct H as (_ & ->). reflexivity. }
+  split.
+  - intros ->. cbn [negb andb] in Eg. apply Z.ltb_ge in Eg. rewrite Er.
+    destruct K1 as (_&_&_&_&_&_&Kp&_). rewrite <- Kp. exact Eg.
+  - split; [exists c1; split; [exact HK|exact Er]|].
+    destruct K1 as (_&_&_&Ka&_). rewrite <- Ka. exact Hmem.
+Qed.
+
+(* ---------- the sums invariant of C13 ---------- *)
+Definition SumInv (s : mstate) : Prop :=
+  (forall a p, get a (ms_pools s) = Some p -> a <> ROWAN -> pool_agrees s a p) /\ ms_open s = tot g_one s.
+
+Lemma g_nonneg_one m : 0 <= g_one m. Proof. unfold g_one. lia. Qed.
+
+Lemma tot_ge g s addr id m : (forall m, 0 <= g m) -> find_mtp s addr id = Some m -> g m <= tot g s.
+Proof.
+  intros Hg Hf. unfold find_mtp, mtps_of, tot in *. destruct (get addr (ms_mtps s)) as [inner|] eqn:E; [|discriminate].
+  pose proof (sumf_get_le g id inner m Hg Hf).
+  pose proof (sumf_get_le (sumf g) addr (ms_mtps s) inner (fun v => sumf_nonneg g v Hg) E). lia.
+Qed.
+
+Lemma others_mk g s p m a addr id : find_mtp s addr id = Some m -> others g (mkCtx s p m a addr id) = tot g s - g m.
+Proof. intros H. unfold others. cbn. rewrite H. reflexivity. Qed.
+
+Lemma link_of_agrees s a p m addr id :
+  pool_agrees s a p -> find_mtp s addr id = Some m -> Link true true (mkCtx s p m a addr id).
+Proof.
+  intros (A1 & A2 & A3 & A4) Hf. unfold Link. cbn [c_asset c_pool c_mtp]. rewrite !(others_mk _ _ _ _ _ _ _ Hf). repeat split; lia.
+Qed.
+
+Lemma g_other_zero a a' m : on_pool a m -> a' <> a -> a' <> ROWAN ->
+  g_nc a' m = 0 /\ g_ec a' m = 0 /\ g_nl a' m = 0 /\ g_el a' m = 0.
+Proof.
+  intros (Ha & [(H1 & H2)|(H1 & H2)]) Hne Hr; unfold g_nc, g_ec, g_nl, g_el; rewrite H1, H2;
+  destruct (Z.eqb_spec ROWAN a'); try congruence; destruct (Z.eqb_spec a a'); try congruence; auto.
+Qed.
+
+(* a completed close of a stored position that lives on pool a keeps the invariant *)
+Lemma Closed_SumInv s a p m addr id s' :
+  SumInv s -> get a (ms_pools s) = Some p -> find_mtp s addr id = Some m -> on_pool a m ->
+  Closed (mkCtx s p m a addr id) s' -> SumInv s'.
+Proof.
+  intros (HP & HO) Hg Hf Hon (C1 & (P' & G' & Q1 & Q2 & Q3 & Q4) & C3 & C4 & C5).
+  cbn [c_asset c_s] in *.
+  assert (Ht : forall g, tot g s' = tot g s - g m) by (intros g; rewrite C1; apply others_mk; exact Hf).
+  split.
+  - intros a' p' Hg' Hr. destruct (Z.eq_dec a' a) as [->|Hne].
+    + rewrite G' in Hg'. injection Hg' as <-. unfold pool_agrees. rewrite !Ht.
+      rewrite Q1, Q2, Q3, Q4, !(others_mk _ _ _ _ _ _ _ Hf). auto.
+    + rewrite C3 in Hg' by exact Hne. destruct (HP _ _ Hg' Hr) as (A1 & A2 & A3 & A4).
+      destruct (g_other_zero _ _ _ Hon Hne Hr) as (Z1 & Z2 & Z3 & Z4).
+      unfold pool_agrees. rewrite !Ht, Z1, Z2, Z3, Z4. repeat split; lia.
+  - rewrite Ht. pose proof (tot_ge g_one s addr id m g_nonneg_one Hf) as Hge. unfold g_one in Hge at 1.
+    rewrite C4, HO. destruct (Z.eqb_spec (tot g_one s) 0); [lia|]. unfold g_one at 3. lia.
+Qed.
+
+Definition position_ok (s : mstate) (addr id : Z) (m : mtp) : Prop :=
+  on_pool (pool_asset_of m) m /\ id <> 0 /\
+  0 <= m_cust_amt m <= bal (ms_bank s) CLP_MODULE (m_cust_asset m).
+Definition pct_ok (s : mstate) : Prop := 0 <= mp_incr_pct (ms_params s) <= PREC.
+
+(* C13: Close keeps the pool totals equal to the sums over the positions, and the counter equal to their number *)
+Theorem close_preserves s signer id c' r :
+  SumInv s -> pct_ok s -> (forall m, find_mtp s signer id = Some m -> position_ok s signer id m) ->
+  close_msg s signer id = (c', Ok r) -> SumInv (c_s c').
+Proof.
+  intros HI Hp Hpos H. unfold close_msg in H.
+  destruct (find_mtp s signer id) as [m|] eqn:Hf; [|inversion H].
+  destruct (get (pool_asset_of m) (ms_pools s)) as [pool|] eqn:Hg; [|inversion H].
+  destruct (Hpos m eq_refl) as (Hon & Hid & Hfunds).
+  assert (Ha : pool_asset_of m <> ROWAN) by apply Hon.
+  pose proof (link_of_agrees s _ pool m signer id (proj1 HI _ _ Hg Ha) Hf) as L.
+  assert (Hh : interest_hyps (mkCtx s pool m (pool_asset_of m) signer id)) by (unfold interest_hyps; cbn; auto).
+  pose proof (close_long_ok _ _ _ H Hon (fun _ => Hh) L) as HC.
+  eapply Closed_SumInv; eassumption.
+Qed.
+
+Theorem admin_close_preserves s adm addr id tf c' r :
+  SumInv s -> pct_ok s -> (forall m, find_mtp s addr id = Some m -> position_ok s addr id m) ->
+  admin_close_msg s adm addr id tf = (c', Ok r) -> SumInv (c_s c') /\ adm = true.
+Proof.
+  intros HI Hp Hpos H. unfold admin_close_msg in H.
+  destruct adm; cbn [negb] in H; [|inversion H].
+  destruct (find_mtp s addr id) as [m|] eqn:Hf; [|inversion H].
+  destruct (get (pool_asset_of m) (ms_pools s)) as [pool|] eqn:Hg; [|inversion H].
+  destruct (Hpos m eq_refl) as (Hon & Hid & Hfunds).
+  assert (Ha : pool_asset_of m <> ROWAN) by apply Hon.
+  pose proof (link_of_agrees s _ pool m addr id (proj1 HI _ _ Hg Ha) Hf) as L.
+  assert (Hh : interest_hyps (mkCtx s pool m (pool_asset_of m) addr id)) by (unfold interest_hyps; cbn; auto).
+  destruct (force_close_long_ok _ _ _ _ _ H Hon (fun _ => Hh) L) as (HC & _).
+  split; [eapply Closed_SumInv; eassumption|reflexivity].
+Qed.
+
+(* only the position's own address can close it with MsgClose *)
+Theorem close_needs_owner s signer id c' r :
+  close_msg s signer id = (c', Ok r) -> exists m, find_mtp s signer id = Some m.
+Proof. unfold close_msg. destruct (find_mtp s signer id) as [m|]; [eauto|intros H; inversion H]. Qed.
+
+(* ---------- the begin blocker: one position at a time, the pool shared in memory ---------- *)
+(* loop invariant: the in-memory pool of asset a agrees with the stored positions, the stored pools of the
+   other assets agree, the counter equals the number of positions *)
+Definition LoopInv (a : Z) (s : mstate) (p : mpool) : Prop :=
+  pool_agrees s a p /\
+  (forall a' p', a' <> a -> get a' (ms_pools s) = Some p' -> a' <> ROWAN -> pool_agrees s a' p') /\
+  ms_open s = tot g_one s.
+
+Lemma set_mtp_stored c c' u : set_mtp c = (c', Ok u) -> find_mtp (c_s c') (c_addr c') (c_id c') = Some (c_mtp c').
+Proof.
+  unfold set_mtp. intros H. apply modc_ok in H. subst. destruct (c_id c =? 0); cbn -[find_mtp put_mtp]; apply find_put_same.
+Qed.
+
+Lemma process_interest_stored c c' u : process_interest c = (c', Ok u) ->
+  find_mtp (c_s c') (c_addr c') (c_id c') = Some (c_mtp c').
+Proof.
+  unfold process_interest. intros H. pmg H.
+  pm H as c1 h E1. pm H as c2 u2 E2. pmg H. pm H as c3 i E3. pm H as c4 fin E4. pm H as c5 u5 E5.
+  eapply set_mtp_stored; eassumption.
+Qed.
+
+Lemma LoopInv_after_interest a s p m addr id cA :
+  LoopInv a s p -> find_mtp s addr id = Some m -> on_pool a m ->
+  Keeps true (mkCtx s p m a addr id) cA ->
+  find_mtp (c_s cA) (c_addr cA) (c_id cA) = Some (c_mtp cA) ->
+  LoopInv a (c_s cA) (c_pool cA).
+Proof.
+  intros (HA & HB & HO) Hf Hon (L & K & _ & O) Hst.
+  pose proof K as (K1 & K2 & K3 & Ka & Kaddr & Kid & Kp & Kh & Ko & Kc & Kpools). cbn in Ka, Kaddr, Kid, Ko, Kc, Kpools, K1, K2, K3.
+  assert (Ht : forall g, tot g (c_s cA) = tot g s - g m + g (c_mtp cA)).
+  { intros g. specialize (O g). unfold others in O. rewrite Hst in O. cbn -[tot] in O. rewrite Hf in O. cbn [gopt] in O. lia. }
+  split; [|split].
+  - unfold Link in L. rewrite Ka in L. destruct L as (L1 & L2 & L3 & L4).
+    unfold pool_agrees. rewrite !Ht.
+    assert (Ho : forall g, others g cA = tot g s - g m).
+    { intros g. rewrite O. apply others_mk. exact Hf. }
+    rewrite !Ho in *. repeat split; lia.
+  - intros a' p' Hne Hg Hr. rewrite Kpools in Hg by exact Hne.
+    destruct (HB _ _ Hne Hg Hr) as (A1 & A2 & A3 & A4).
+    assert (HonA : on_pool a (c_mtp cA)) by (unfold on_pool in *; rewrite K1, K2; exact Hon).
+    destruct (g_other_zero _ _ _ Hon Hne Hr) as (Z1 & Z2 & Z3 & Z4).
+    destruct (g_other_zero _ _ _ HonA Hne Hr) as (Y1 & Y2 & Y3 & Y4).
+    unfold pool_agrees. rewrite !Ht, Z1, Z2, Z3, Z4, Y1, Y2, Y3, Y4. repeat split; lia.
+  - rewrite Ko, Ht. unfold g_one at 2 3. lia.
+Qed.
+
+Lemma LoopInv_after_close a s p m addr id cF :
+  LoopInv a s p -> find_mtp s addr id = Some m -> on_pool a m ->
+  Closed (mkCtx s p m a addr id) (c_s cF) -> get a (ms_pools (c_s cF)) = Some (c_pool cF) ->
+  LoopInv a (c_s cF) (c_pool cF).
+Proof.
+  intros (HA & HB & HO) Hf Hon (C1 & (P' & G' & Q1 & Q2 & Q3 & Q4) & C3 & C4 & C5) Hmem.
+  cbn [c_asset c_s] in *. rewrite Hmem in G'. injection G' as <-.
+  assert (Ht : forall g, tot g (c_s cF) = tot g s - g m) by (intros g; rewrite C1; apply others_mk; exact Hf).
+  split; [|split].
+  - unfold pool_agrees. rewrite !Ht, Q1, Q2, Q3, Q4, !(others_mk _ _ _ _ _ _ _ Hf). auto.
+  - intros a' p' Hne Hg Hr. rewrite C3 in Hg by exact Hne. destruct (HB _ _ Hne Hg Hr) as (A1 & A2 & A3 & A4).
+    destruct (g_other_zero _ _ _ Hon Hne Hr) as (Z1 & Z2 & Z3 & Z4).
+    unfold pool_agrees. rewrite !Ht, Z1, Z2, Z3, Z4. repeat split; lia.
+  - rewrite Ht. pose proof (tot_ge g_one s addr id m g_nonneg_one Hf) as Hge. unfold g_one in Hge at 1.
+    rewrite C4, HO. destruct (Z.eqb_spec (tot g_one s) 0); [lia|]. unfold g_one at 3. lia.
+Qed.
+
+(* C13: one position of the begin blocker. Whatever happens (interest only, liquidation, error, panic) the loop
+   invariant is kept; a position is liquidated only if the health computed for it is at most the safety factor. *)
+Theorem process_mtp_step a s p m addr id c' o :
+  process_mtp (mkCtx s p m a addr id) = (c', o) ->
+  epoch_position s = 0 ->
+  LoopInv a s p -> find_mtp s addr id = Some m -> on_pool a m -> id <> 0 -> pct_ok s ->
+  0 <= m_cust_amt m <= bal (ms_bank s) CLP_MODULE (m_cust_asset m) ->
+  LoopInv a (c_s c') (c_pool c') /\
+  (forall h, o = Ok h -> h <= mp_safety (ms_params s)).
+Proof.
+  intros H Hep HL Hf Hon Hid Hp Hfunds.
+  set (c := mkCtx s p m a addr id) in *.
+  assert (Hh : interest_hyps c).
+  { unfold interest_hyps, c; cbn. split; [exact Hon|]. split; [exact Hid|]. split; [exact Hp|exact Hfunds]. }
+  assert (L : Link true true c) by (apply link_of_agrees; [exact (proj1 HL)|exact Hf]).
+  unfold process_mtp in H.
+  destruct (process_interest c) as [cA oA] eqn:EA.
+  destruct oA as [uA|e|].
+  2:{ injection H as <- <-. cbn. split; [exact HL|]. intros h Hc. discriminate. }
+  2:{ injection H as <- <-. cbn. split; [exact HL|]. intros h Hc. discriminate. }
+  pose proof (process_interest_ok _ _ _ EA Hh L) as HK.
+  pose proof (process_interest_stored _ _ _ EA) as Hst.
+  pose proof (LoopInv_after_interest _ _ _ _ _ _ _ HL Hf Hon HK Hst) as HLA.
+  destruct (force_close_long false true cA) as [cF oF] eqn:EF.
+  destruct oF as [r|e|].
+  - injection H as <- <-.
+    pose proof HK as (LA & KA & _ & _).
+    pose proof KA as (K1&K2&K3&Ka&Kaddr&Kid&Kp&Kh&_). cbn in K1, K2, K3, Ka, Kaddr, Kid, Kp, Kh.
+    assert (HonA : on_pool (c_asset cA) (c_mtp cA)) by (eapply keeps_on_pool; [exact HK|exact Hon]).
+    assert (HepA : epoch_position (c_s cA) = 0) by (unfold epoch_position in *; rewrite Kp, Kh; exact Hep).
+    destruct (force_close_long_ok _ _ _ _ _ EF HonA (fun Hc => False_ind _ (Hc HepA)) LA) as (HC & Hsafe & _ & Hmem).
+    split.
+    + destruct cA as [sA pA mA aA addrA idA]. cbn in *. subst aA addrA idA.
+      eapply (LoopInv_after_close a sA pA mA addr id cF); try eassumption.
+    + intros h [= <-]. rewrite <- Kp. apply Hsafe. reflexivity.
+  - injection H as <- <-. split; [exact HLA|]. intros h Hc. discriminate.
+  - injection H as <- <-. cbn. split; [exact HL|]. intros h Hc. discriminate.
+Qed.
+
+(* ---------- Open ---------- *)
+Lemma set_mtp_new c c' u : set_mtp c = (c', Ok u) -> c_id c = 0 ->
+  c' = c <| c_id := ms_count (c_s c) + 1 |>
+         <| c_s := put_mtp ((c_s c) <| ms_count := ms_count (c_s c) + 1 |> <| ms_open := ms_open (c_s c) + 1 |>) (c_addr c) (ms_count (c_s c) + 1) (c_mtp c) |>.
+Proof. unfold set_mtp. intros H Hid. apply modc_ok in H. rewrite Hid in H. cbn [Z.eqb] in H. exact H. Qed.
+
+(* Borrow: collateral in, liabilities booked, the position stored under a new id *)
+Lemma borrow_fn_ok coll_amt cust_amt eta c c' u :
+  borrow_fn coll_amt cust_amt eta c = (c', Ok u) ->
+  c_id c = 0 -> m_cust_amt (c_mtp c) = 0 -> m_liab (c_mtp c) = 0 -> m_coll_amt (c_mtp c) = 0 ->
+  on_pool (c_asset c) (c_mtp c) ->
+  find_mtp (c_s c) (c_addr c) 0 = None -> find_mtp (c_s c) (c_addr c) (ms_count (c_s c) + 1) = None ->
+  Link false false c ->
+  Link false true c' /\ (forall g, others g c' = others g c) /\
+  c_id c' = ms_count (c_s c) + 1 /\ c_addr c' = c_addr c /\ c_asset c' = c_asset c /\
+  find_mtp (c_s c') (c_addr c') (c_id c') = Some (c_mtp c') /\
+  m_coll_asset (c_mtp c') = m_coll_asset (c_mtp c) /\ m_cust_asset (c_mtp c') = m_cust_asset (c_mtp c) /\
+  m_cust_amt (c_mtp c') = cust_amt /\ m_coll_amt (c_mtp c') = coll_amt /\
+  ms_open (c_s c') = ms_open (c_s c) + 1 /\ ms_count (c_s c') = ms_count (c_s c) + 1 /\
+  ms_params (c_s c') = ms_params (c_s c) /\
+  (forall a', a' <> c_asset c -> get a' (ms_pools (c_s c')) = get a' (ms_pools (c_s c))) /\
+  send (ms_bank (c_s c)) (c_addr c) CLP_MODULE (m_coll_asset (c_mtp c)) coll_amt = Some (ms_bank (c_s c')).
+Proof.
+  unfold borrow_fn. intros H Hid Hcu0 Hl0 Hca0 Hon Hf0 Hfn L. pmg H.
+  pm H as c1 u1 E1. assert (c1 = c) by (destruct (_ <? _); [exfalso; eapply failM_not_ok; eassumption|apply ret_ok in E1; tauto]). subst c1.
+  pm H as c2 liab_add E2. apply lift_ok in E2. destruct E2 as (-> & El).
+  pm H as c3 u3 E3. apply upd_mtp_ok in E3. destruct E3 as (m3 & Em3 & ->).
+  repeat inv1 Em3. uints. subst.
+  pmg H. pm H as c4 h E4. apply lift_ok in E4. destruct E4 as (-> & _).
+  pm H as c5 u5 E5. apply upd_mtp_ok in E5. destruct E5 as (m5 & Em5 & ->). injection Em5 as <-.
+  pm H as c6 u6 E6. apply bank_send_ok in E6. destruct E6 as (b & Hsend & ->).
+  pmg H. pm H as c7 u7 E7. apply upd_pool_ok in E7. destruct E7 as (p7 & Hp7 & ->).
+  pm H as c8 u8 E8. apply set_pool_ok in E8. subst c8.
+  apply set_mtp_new in H; [|cbn; exact Hid]. subst c'.
+  cbn -[find_mtp put_mtp others tot get Store.set g_nc g_ec g_nl g_el send] in *.
+  rewrite Hcu0, Hl0, Hca0 in *.
+  set (M := c_mtp c <| m_coll_amt := 0 + coll_amt |> <| m_liab := 0 + liab_add |> <| m_cust_amt := 0 + cust_amt |> <| m_lev := eta + PREC |> <| m_health := h |>) in *.
+  set (id' := ms_count (c_s c) + 1) in *.
+  (* what the others hold does not change: the new key was free *)
+  assert (HO : forall g st, ms_mtps st = ms_mtps (c_s c) ->
+                 tot g (put_mtp st (c_addr c) id' M) - g M = tot g (c_s c) - gopt g (find_mtp (c_s c) (c_addr c) (c_id c))).
+  { intros g st Hst. rewrite tot_put, (tot_core g _ _ Hst), (find_core _ _ _ _ Hst), Hfn, Hid, Hf0. cbn [gopt]. lia. }
+  assert (Hoth : forall g, others g (c <| c_mtp := M |> <| c_s := c_s c <| ms_bank := b |> |> <| c_pool := p7 |>
+                  <| c_s := c_s c <| ms_bank := b |> <| ms_pools := set (c_asset c) p7 (ms_pools (c_s c <| ms_bank := b |>)) |> |>
+                  <| c_id := id' |>
+                  <| c_s := put_mtp (c_s c <| ms_bank := b |> <| ms_pools := set (c_asset c) p7 (ms_pools (c_s c <| ms_bank := b |>)) |>
+                                         <| ms_count := id' |> <| ms_open := ms_open (c_s c) + 1 |>) (c_addr c) id' M |>) = others g c).
+  { intros g. unfold others. cbn -[tot find_mtp put_mtp]. rewrite find_put_same. cbn [gopt]. apply HO. reflexivity. }
+  split.
+  { unfold Link. rewrite !Hoth. cbn -[others g_nc g_ec g_nl g_el].
+    destruct L as (L1 & L2 & L3 & L4).
+    assert (HonM : on_pool (c_asset c) M) by (unfold on_pool, M in *; cbn; exact Hon).
+    destruct (gs_on_pool _ _ HonM) as [(Hcu & G1 & G2 & G3 & G4)|(Hcu & G1 & G2 & G3 & G4)].
+    - assert (Ecoll : (m_coll_asset (c_mtp c) =? ROWAN) = false).
+      { destruct Hon as (Ha & [(Hc1 & Hc2)|(Hc1 & Hc2)]); [unfold M in Hcu; cbn in Hcu; congruence|]. rewrite Hc2. apply Z.eqb_neq. exact Ha. }
+      rewrite Ecoll in Hp7. repeat inv1 Hp7. uints. subst. cbn. rewrite G3, G4. unfold M. cbn. repeat split; lia.
+    - assert (Ecoll : (m_coll_asset (c_mtp c) =? ROWAN) = true).
+      { destruct Hon as (Ha & [(Hc1 & Hc2)|(Hc1 & Hc2)]); [rewrite Hc1; reflexivity|]. unfold M in Hcu; cbn in Hcu. congruence. }
+      rewrite Ecoll in Hp7. repeat inv1 Hp7. uints. subst. cbn. rewrite G3, G4. unfold M. cbn. repeat split; lia. }
+  split; [exact Hoth|].
+  cbn -[find_mtp put_mtp get Store.set send].
+  split; [reflexivity|]. split; [reflexivity|]. split; [reflexivity|].
+  split; [apply find_put_same|].
+  unfold M. cbn -[get Store.set send].
+  split; [reflexivity|]. split; [reflexivity|]. split; [lia|]. split; [lia|].
+  split; [reflexivity|]. split; [reflexivity|]. split; [reflexivity|].
+  split; [intros a' Ha'; apply get_set_other; exact Ha'|exact Hsend].
+Qed.
+
+(* C13: Open. An accepted Open takes exactly the stated collateral from the trader into the module account, stores
+   one new position that lives on exactly one pool, whose health exceeds the safety factor, and keeps the sums *)
+Theorem open_preserves s hl signer coll borrow amt lev c' u :
+  SumInv s ->
+  find_mtp s signer 0 = None -> find_mtp s signer (ms_count s + 1) = None ->
+  open_msg s hl signer coll borrow amt lev = (c', Ok u) ->
+  let a := if coll =? ROWAN then borrow else coll in
+  let M := c_mtp c' in
+  SumInv (c_s c') /\
+  find_mtp (c_s c') signer (ms_count s + 1) = Some M /\ on_pool a M /\
+  m_coll_asset M = coll /\ m_cust_asset M = borrow /\ m_coll_amt M = amt /\
+  send (ms_bank s) signer CLP_MODULE coll amt = Some (ms_bank (c_s c')) /\
+  (exists lr, mtp_health (c_s c') a M (c_pool c') = Ok lr /\ mp_safety (ms_params s) < lr) /\
+  get a (ms_pools (c_s c')) = Some (c_pool c').
+Proof.
+  intros (HP & HO) Hf0 Hfn H a M. unfold open_msg in H.
+  destruct (mp_whitelisting (ms_params s) && negb (mem signer (ms_whitelist s))); [inversion H|].
+  destruct (mp_max_open (ms_params s) <=? ms_open s); [inversion H|].
+  fold a in H. destruct (get a (ms_pools s)) as [pool|] eqn:Hg; [|inversion H].
+  destruct (negb (mem a (mp_pools (ms_params s))) || mem a (mp_closed (ms_params s))); [inversion H|].
+  destruct hl; [inversion H|].
+  destruct (Bool.eqb (coll =? ROWAN) (borrow =? ROWAN)) eqn:Ex; [inversion H|].
+  set (lv := Z.min lev (mp_lev_max (ms_params s))) in *.
+  set (c1 := mkCtx s pool (new_mtp coll borrow lv) a signer 0) in *.
+  assert (Hon : on_pool a (new_mtp coll borrow lv)).
+  { unfold on_pool, new_mtp, a. cbn. destruct (Z.eqb_spec coll ROWAN) as [->|Hc]; destruct (Z.eqb_spec borrow ROWAN) as [->|Hb]; cbn in Ex; try discriminate.
+    - split; [exact Hb|]. left. auto.
+    - split; [exact Hc|]. right. auto. }
+  assert (Ha : a <> ROWAN) by apply Hon.
+  destruct (negb (mp_rowan_coll (ms_params s)) && (coll =? ROWAN)); [exfalso; eapply failM_not_ok; eassumption|].
+  pm H as c2 lamt E2. apply lift_ok in E2. destruct E2 as (-> & _).
+  pm H as c3 u3 E3. assert (c3 = c1) by (destruct (_ <? lamt); [exfalso; eapply failM_not_ok; eassumption|apply ret_ok in E3; tauto]). subst c3.
+  pm H as c4 u4 E4. apply lift_ok in E4. destruct E4 as (-> & _).
+  pm H as c5 cust E5. apply lift_ok in E5. destruct E5 as (-> & _).
+  pm H as c6 u6 E6. assert (c6 = c1) by (destruct (_ <? cust); [exfalso; eapply failM_not_ok; eassumption|apply ret_ok in E6; tauto]). subst c6.
+  pm H as c7 u7 E7.
+  assert (L1 : Link false false c1).
+  { destruct (HP _ _ Hg Ha) as (A1 & A2 & A3 & A4). unfold Link, others, c1. cbn -[tot find_mtp]. rewrite Hf0. cbn [gopt]. repeat split; lia. }
+  destruct (borrow_fn_ok _ _ _ _ _ _ E7 eq_refl eq_refl eq_refl eq_refl Hon Hf0 Hfn L1)
+    as (L7 & O7 & Hid7 & Haddr7 & Ha7 & Hst7 & Hca7 & Hcu7 & Hcam7 & Hcoll7 & Hop7 & Hcnt7 & Hpar7 & Hpools7 & Hsend).
+  cbn [c_s c_addr c_asset c_mtp c1 new_mtp m_coll_asset m_cust_asset] in *.
+  pm H as c8 u8 E8. pose proof (set_pool_core _ _ _ E8) as Hc8.
+  pm H as c9 u9 E9.
+  pose proof Hc8 as (HP8 & (M1 & M2 & M3 & M4 & K1 & K2 & K3 & S1 & S2 & S3 & S4 & S5 & S6)).
+  assert (Hon8 : on_pool (c_asset c8) (c_mtp c8)) by (unfold on_pool in *; rewrite M1, M2, K1, Hca7, Hcu7, Ha7; exact Hon).
+  destruct (take_in_custody_link _ _ _ _ E9 Hon8 (Link_core _ _ _ _ Hc8 L7)) as (L9 & Hm9).
+  pose proof Hm9 as (N1 & N2 & N3 & N4 & J1 & J2 & J3 & T1 & T2 & T3 & T4 & T5 & T6).
+  pmg H. pm H as c10 lr E10. apply lift_ok in E10. destruct E10 as (-> & Elr).
+  destruct (Z.leb_spec lr (mp_safety (ms_params s))) as [Hle|Hgt]; [exfalso; eapply failM_not_ok; eassumption|].
+  apply ret_ok in H. destruct H as (-> & _).
+  (* the final context c9 *)
+  assert (Ea9 : c_asset c9 = a) by congruence.
+  assert (Eaddr9 : c_addr c9 = signer) by congruence.
+  assert (Eid9 : c_id c9 = ms_count s + 1) by congruence.
+  assert (Hst9 : find_mtp (c_s c9) signer (ms_count s + 1) = Some (c_mtp c9)).
+  { rewrite (find_core _ _ _ _ T1), (find_core _ _ _ _ S1). rewrite <- Haddr7, <- Hid7.
+    assert (Em : c_mtp c9 = c_mtp c7).
+    { clear -E8 E9. apply set_pool_ok in E8. subst c8. unfold take_in_custody in E9. pmg E9. pm E9 as cx ux Ex.
+      apply upd_pool_ok in Ex. destruct Ex as (px & _ & ->). apply set_pool_ok in E9. subst c9. reflexivity. }
+    rewrite Em. exact Hst7. }
+  assert (Hmem : get a (ms_pools (c_s c9)) = Some (c_pool c9)).
+  { clear -E9 Ea9 J1 K1 Ha7. unfold take_in_custody in E9. pmg E9. pm E9 as cx ux Ex.
+    apply upd_pool_ok in Ex. destruct Ex as (px & _ & ->). apply set_pool_ok in E9. subst c9.
+    cbn -[get Store.set] in *. rewrite <- Ea9. apply get_set_same. }
+  assert (HonM : on_pool a (c_mtp c9)) by (unfold on_pool in *; rewrite N1, N2, M1, M2, Hca7, Hcu7; exact Hon).
+  assert (Ht : forall g, tot g (c_s c9) = tot g s + g (c_mtp c9)).
+  { intros g. pose proof (others_core g _ _ Hm9) as O9. pose proof (others_core g _ _ (proj2 Hc8)) as O8. specialize (O7 g).
+    unfold others in O9 at 1. rewrite Eaddr9, Eid9, Hst9 in O9. cbn [gopt] in O9.
+    unfold others in O7 at 2. cbn -[tot] in O7. rewrite Hf0 in O7. cbn [gopt] in O7. lia. }
+  split.
+  { split.
+    - intros a' p' Hg' Hr. destruct (Z.eq_dec a' a) as [->|Hne].
+      + rewrite Hmem in Hg'. injection Hg' as <-. unfold pool_agrees. rewrite !Ht.
+        unfold Link in L9. rewrite Ea9 in L9. destruct L9 as (Q1 & Q2 & Q3 & Q4).
+        assert (Ho : forall g, others g c9 = tot g s).
+        { intros g. rewrite (others_core g _ _ Hm9), (others_core g _ _ (proj2 Hc8)), O7. unfold others. cbn -[tot]. rewrite Hf0. cbn [gopt]. lia. }
+        rewrite !Ho in *. auto.
+      + assert (Hg0 : get a' (ms_pools s) = Some p').
+        { rewrite <- Hpools7 by exact Hne. rewrite <- S6 by congruence. rewrite <- T6 by congruence. exact Hg'. }
+        destruct (HP _ _ Hg0 Hr) as (A1 & A2 & A3 & A4).
+        destruct (g_other_zero _ _ _ HonM Hne Hr) as (Z1 & Z2 & Z3 & Z4).
+        unfold pool_agrees. rewrite !Ht, Z1, Z2, Z3, Z4. repeat split; lia.
+    - rewrite Ht, T2, S2, Hop7, HO. unfold g_one at 3. lia. }
+  fold M. split; [exact Hst9|]. split; [exact HonM|].
+  split; [unfold M; congruence|]. split; [unfold M; congruence|].
+  split.
+  { assert (Em : c_mtp c9 = c_mtp c7).
+    { clear -E8 E9. apply set_pool_ok in E8. subst c8. unfold take_in_custody in E9. pmg E9. pm E9 as cx ux Ex.
+      apply upd_pool_ok in Ex. destruct Ex as (px & _ & ->). apply set_pool_ok in E9. subst c9. reflexivity. }
+    unfold M. rewrite Em. exact Hcoll7. }
+  split.
+  { assert (Eb : ms_bank (c_s c9) = ms_bank (c_s c7)).
+    { clear -E8 E9. apply set_pool_ok in E8. subst c8. unfold take_in_custody in E9. pmg E9. pm E9 as cx ux Ex.
+      apply upd_pool_ok in Ex. destruct Ex as (px & _ & ->). apply set_pool_ok in E9. subst c9. reflexivity. }
+    rewrite Eb. exact Hsend. }
+  split; [|exact Hmem].
+  exists lr. split; [exact Elr|exact Hgt].
+Qed.
+
+(* ---------- the begin blocker's loop over the positions of one pool ---------- *)
+Definition bb_step (asset : Z) (acc : mstate * mpool * list (Z * Z * Z)) (t : Z * Z * mtp) : mstate * mpool * list (Z * Z * Z) :=
+  let '(st, p, closed) := acc in
+  let '(addr, id, m) := t in
+  let '(c', o) := process_mtp (mkCtx st p m asset addr id) in
+  (c_s c', c_pool c', match o with Ok h => closed ++ [(addr, id, h)] | _ => closed end).
+
+(* per-step side conditions: the listed position is still stored as listed when its turn comes (the steps before it
+   wrote only their own keys), it lives on this pool, the module account covers its custody *)
+Fixpoint steps_ok (asset : Z) (st : mstate) (p : mpool) (ms : list (Z * Z * mtp)) : Prop :=
+  match ms with
+  | [] => True
+  | (addr, id, m) :: rest =>
+    find_mtp st addr id = Some m /\ on_pool asset m /\ id <> 0 /\ epoch_position st = 0 /\ pct_ok st /\
+    0 <= m_cust_amt m <= bal (ms_bank st) CLP_MODULE (m_cust_asset m) /\
+    let '(c', _) := process_mtp (mkCtx st p m asset addr id) in steps_ok asset (c_s c') (c_pool c') rest
+  end.
+
+Lemma bb_loop asset : forall ms st p closed st' p' closed',
+  fold_left (bb_step asset) ms (st, p, closed) = (st', p', closed') ->
+  LoopInv asset st p -> steps_ok asset st p ms ->
+  LoopInv asset st' p' /\
+  (forall addr id h, In (addr, id, h) closed' -> In (addr, id, h) closed \/ exists st0, h <= mp_safety (ms_params st0)).
+Proof.
+  induction ms as [|[[addr id] m] rest IH]; intros st p closed st' p' closed' H HL Hs.
+  - cbn in H. injection H as <- <- <-. split; [exact HL|]. intros; left; assumption.
+  - cbn [fold_left] in H. cbn [steps_ok] in Hs. destruct Hs as (Hf & Hon & Hid & Hep & Hp & Hfunds & Hrest).
+    unfold bb_step at 2 in H.
+    destruct (process_mtp (mkCtx st p m asset addr id)) as [c1 o1] eqn:E.
+    destruct (process_mtp_step _ _ _ _ _ _ _ _ E Hep HL Hf Hon Hid Hp Hfunds) as (HL1 & Hsafe).
+    destruct (IH _ _ _ _ _ _ H HL1 Hrest) as (HLf & Hc).
+    split; [exact HLf|].
+    intros a0 i0 h0 Hin. destruct (Hc _ _ _ Hin) as [Hin'|Hex]; [|right; exact Hex].
+    destruct o1 as [h| |]; [|left; exact Hin'|left; exact Hin'].
+    apply in_app_or in Hin'. destruct Hin' as [Hin'|[Heq|[]]]; [left; exact Hin'|].
+    injection Heq as <- <- <-. right. exists st. apply Hsafe. reflexivity.
+Qed.
+
+(* writing the in-memory pool back at the end turns the loop invariant into the state invariant *)
+Lemma LoopInv_write asset st p : asset <> ROWAN -> LoopInv asset st p -> SumInv (st <| ms_pools := set asset p (ms_pools st) |>).
+Proof.
+  intros Ha (HA & HB & HO). split.
+  - intros a' p' Hg Hr. cbn -[get Store.set] in Hg. destruct (Z.eq_dec a' asset) as [->|Hne].
+    + rewrite get_set_same in Hg. injection Hg as <-. exact HA.
+    + rewrite get_set_other in Hg by exact Hne. apply (HB _ _ Hne Hg Hr).
+  - exact HO.
+Qed.
+
+Definition bb_p1 (pool : mpool) (new_rate : Z * Z * Z) : mpool :=
+  let '(r, rn, rd) := new_rate in
+  pool <| q_bin := 0 |> <| q_bie := 0 |> <| q_rate := r |> <| q_rate_num := rn |> <| q_rate_den := rd |>.
+Definition bb_s1 (s : mstate) (asset : Z) (pool : mpool) (new_rate : Z * Z * Z) : mstate :=
+  s <| ms_pools := set asset (bb_p1 pool new_rate) (ms_pools s) |>.
+Definition bb_list (s : mstate) (asset : Z) : list (Z * Z * mtp) :=
+  filter (fun t => let '(_, _, m) := t in (m_cust_asset m =? asset) || (m_coll_asset m =? asset)) (all_mtps s).
+
+Lemma pool_agrees_fields s s' a p p' :
+  ms_mtps s' = ms_mtps s -> q_nc p' = q_nc p -> q_ec p' = q_ec p -> q_nl p' = q_nl p -> q_el p' = q_el p ->
+  pool_agrees s a p -> pool_agrees s' a p'.
+Proof.
+  intros Hm E1 E2 E3 E4 (A1 & A2 & A3 & A4). unfold pool_agrees. rewrite !(tot_core _ _ _ Hm), E1, E2, E3, E4. auto.
+Qed.
+
+(* C13: the begin blocker's pass over one pool keeps the invariant and liquidates only at or below the safety factor *)
+Theorem begin_block_pool_preserves s asset pool new_rate s' closed :
+  SumInv s -> get asset (ms_pools s) = Some pool -> asset <> ROWAN ->
+  begin_block_pool s asset pool new_rate = Ok (s', closed) ->
+  steps_ok asset (bb_s1 s asset pool new_rate) (bb_p1 pool new_rate) (bb_list (bb_s1 s asset pool new_rate) asset) ->
+  SumInv s' /\ (forall addr id h, In (addr, id, h) closed -> exists st0, h <= mp_safety (ms_params st0)).
+Proof.
+  intros (HP & HO) Hg Ha H Hsteps. unfold begin_block_pool in H.
+  destruct (negb (mem asset (mp_pools (ms_params s)))).
+  - injection H as <- <-. split; [|intros ? ? ? []].
+    apply LoopInv_write; [exact Ha|]. split; [|split].
+    + eapply pool_agrees_fields; [reflexivity|reflexivity|reflexivity|reflexivity|reflexivity|apply (HP _ _ Hg Ha)].
+    + intros a' p' Hne Hg' Hr. apply (HP _ _ Hg' Hr).
+    + exact HO.
+  - destruct ((q_nb (pool <| q_bin := 0 |> <| q_bie := 0 |>) =? 0) || (q_eb (pool <| q_bin := 0 |> <| q_bie := 0 |>) =? 0)); [discriminate|].
+    destruct new_rate as [[r rn] rd].
+    change (pool <| q_bin := 0 |> <| q_bie := 0 |> <| q_rate := r |> <| q_rate_num := rn |> <| q_rate_den := rd |>) with (bb_p1 pool (r, rn, rd)) in H.
+    change (s <| ms_pools := set asset (bb_p1 pool (r, rn, rd)) (ms_pools s) |>) with (bb_s1 s asset pool (r, rn, rd)) in H.
+    set (s1 := bb_s1 s asset pool (r, rn, rd)) in *. set (p1 := bb_p1 pool (r, rn, rd)) in *.
+    change (filter _ (all_mtps s1)) with (bb_list s1 asset) in H.
+    change (fold_left _ (bb_list s1 asset) (s1, p1, [])) with (fold_left (bb_step asset) (bb_list s1 asset) (s1, p1, [])) in H.
+    destruct (fold_left (bb_step asset) (bb_list s1 asset) (s1, p1, [])) as [[s2 p2] cl] eqn:EF.
+    injection H as <- <-.
+    assert (HL1 : LoopInv asset s1 p1).
+    { split; [|split].
+      - eapply (pool_agrees_fields s s1 asset pool p1); try reflexivity. apply (HP _ _ Hg Ha).
+      - intros a' p' Hne Hg' Hr. unfold s1, bb_s1 in Hg'. cbn -[get Store.set] in Hg'. rewrite get_set_other in Hg' by exact Hne.
+        eapply pool_agrees_fields; [reflexivity|reflexivity|reflexivity|reflexivity|reflexivity|apply (HP _ _ Hg' Hr)].
+      - exact HO. }
+    destruct (bb_loop asset _ _ _ _ _ _ _ EF HL1 Hsteps) as (HLf & Hc).
+    split; [apply LoopInv_write; assumption|].
+    intros addr id h Hin. destruct (Hc _ _ _ Hin) as [[]|Hex]. exact Hex.
 Qed.
